@@ -49,11 +49,22 @@ def correspondence(ctx):
         if not ok:
             ctx.disagree('C12/row-vs-batch', {'entry': e.name, 'B': B, 'row': i, 'inverse': inverse},
                          {'out': yw.reshape(-1).tolist()[:6]}, {'out': y1.reshape(-1).tolist()[:6]}, 'row of the batch result differs from evaluating the row alone')
+    _extras(ctx)
 
 
 def search(ctx):
+    direct(ctx)
+
+
+def _extras(ctx):
+    oracles.direct_on_extras(ctx, 'C12', lambda c, entries=None, count=False: direct(c, entries, count))
+
+
+def direct(ctx, entries=None, count=False):
     gen = torch.Generator().manual_seed(ctx.seed + 1212)
-    for e in oracles.all_entries('quick'):
+    for e in (entries if entries is not None else oracles.all_entries('quick')):
+        if e.extra.get('big'):
+            continue
         try:
             t = tcorr.build(e, gen, torch.float64, 'normal')
             for inverse in (False, True):
@@ -65,6 +76,8 @@ def search(ctx):
                 k, y, ld = R.impl_call(t, x, c, inverse)
                 if k != 'ok':
                     continue
+                if count:
+                    ctx.case(key=('direct-rows', e.name, inverse), branch='direct-row-vs-batch', nontrivial=True, n=int(x.numel()))
                 cls = e.name.split('/')[0]
                 tol = dict(rtol=1e-7, atol=1e-9) if 'UMNN' not in e.name else dict(rtol=1e-3, atol=1e-4)
                 for i in (0, B - 1):
